@@ -198,7 +198,7 @@ impl<'a> hb_font_t<'a> {
                 return face.glyph_ver_advance(glyph).unwrap_or(0) as u32;
             } else {
                 // TODO: Original code calls `h_extents_with_fallback`
-                return (face.ascender() - face.descender()) as u32;
+                return (i32::from(face.ascender()) - i32::from(face.descender())) as u32;
             }
         } else if !is_vertical && face.tables().hmtx.is_some() {
             face.glyph_hor_advance(glyph).unwrap_or(0) as u32
@@ -220,8 +220,9 @@ impl<'a> hb_font_t<'a> {
                     if self.ttfp_face.tables().vmtx.is_some() {
                         extents.y_bearing + self.glyph_side_bearing(glyph, true)
                     } else {
-                        let advance = self.ttfp_face.ascender() - self.ttfp_face.descender();
-                        let diff = advance as i32 - -extents.height;
+                        let advance = i32::from(self.ttfp_face.ascender())
+                            - i32::from(self.ttfp_face.descender());
+                        let diff = advance - -extents.height;
                         return extents.y_bearing + (diff >> 1);
                     }
                 } else {
